@@ -38,11 +38,18 @@ func writeLadder(ws string, w, d int, chain bool) error { return writeLadderF(ws
 // writeLadderF: with failing=true the bottom target n0000 fails, so that a build has to
 // propagate the failure to everything above it.
 func writeLadderF(ws string, w, d int, chain, failing bool) error {
+	return writeLadderO(ws, w, d, chain, failing, nil)
+}
+
+// writeLadderO: outs gives targets (by index) declared outputs; every other target gets a file
+// and a directory output of its own, so that the output-conflict detection has work to do.
+func writeLadderO(ws string, w, d int, chain, failing bool, outs map[int][]string) error {
 	type tgt struct {
 		Name    string   `json:"name"`
 		Command string   `json:"command"`
 		Deps    []string `json:"dependencies,omitempty"`
 		Inputs  []string `json:"inputs,omitempty"`
+		Outputs []string `json:"outputs,omitempty"`
 	}
 	var ts []tgt
 	n := w * d
@@ -50,6 +57,13 @@ func writeLadderF(ws string, w, d int, chain, failing bool) error {
 		t := tgt{Name: fmt.Sprintf("n%04d", i), Command: "true", Inputs: []string{"in.txt"}}
 		if failing && i == 0 {
 			t.Command = "exit 3"
+		}
+		if outs != nil {
+			if o, ok := outs[i]; ok {
+				t.Outputs = o
+			} else {
+				t.Outputs = []string{fmt.Sprintf("o%04d.txt", i), fmt.Sprintf("dir::d%04d", i)}
+			}
 		}
 		if chain {
 			if i > 0 {
@@ -193,6 +207,27 @@ func RunC19(tier string) int {
 	for _, args := range [][]string{{"build"}, {"build", "//:n0002"}, {"build", "//:n0003", "//:n0011"}} {
 		compare(chnF, ladF, args, "bottom-target-fails:", nil)
 		compare(chnF, ladF, args, "bottom-target-fails+fail-fast:", []string{"GROG_FAIL_FAST=true"})
+	}
+	// output-conflict detection at process level (independent of the counters): every target
+	// declares outputs, and some pairs overlap - ordered by dependency across many layers (legal:
+	// the order has to be established), or not ordered at all (an error that must be found just
+	// as quickly)
+	for vi, v := range []struct {
+		name string
+		outs map[int][]string
+	}{
+		{"bottom-dir-contains-top-dir", map[int][]string{0: {"dir::dist"}, 59: {"dir::dist/pkg"}}},
+		{"mid-dir-contains-upper-file", map[int][]string{20: {"dir::m"}, 41: {"m/f.txt"}, 21: {"dir::k"}, 57: {"dir::k/sub/deep"}}},
+		{"same-layer-pair-overlaps", map[int][]string{58: {"dir::s"}, 59: {"s/x.txt"}}},
+		{"many-ordered-overlaps", map[int][]string{1: {"dir::a"}, 10: {"dir::a/b"}, 30: {"dir::a/b/c"}, 50: {"a/b/c/d.txt"}, 59: {"dir::a/z"}}},
+	} {
+		mkO := func(name string, chain bool) *grog.Machine {
+			ws := filepath.Join(dir, name)
+			_ = writeLadderO(ws, 2, 30, chain, false, v.outs)
+			return &grog.Machine{Bin: g, Workspace: ws, Root: filepath.Join(dir, name+"-root"), Home: filepath.Join(dir, "home"), Trace: filepath.Join(dir, name+"-trace"), VctlBin: self}
+		}
+		ladO, chnO := mkO(fmt.Sprintf("ladder-outs%d", vi), false), mkO(fmt.Sprintf("chain-outs%d", vi), true)
+		compare(chnO, ladO, []string{"check"}, "overlapping-outputs("+v.name+"):", nil)
 	}
 	run.Assume("operation counts are exact (atomic counters at the loop heads); CPU time is process rusage, not wall clock")
 	return run.Finish()
